@@ -2,7 +2,6 @@
 
 use crate::term::*;
 use crate::{Args, guarded, open_out, read_lines};
-use apache_avro::types::Value;
 use apache_avro::writer::datum::GenericDatumWriter;
 use apache_avro::{GenericSingleObjectWriter, Reader, Schema, Writer};
 use serde_json::{Value as J, json};
